@@ -184,14 +184,12 @@ Ltac lrs0 :=
 Ltac lrs1 := first [ apply lrs_refl | lrs0 ].
 Ltac lrschain := repeat (first [ lrs1 | eapply lrs_trans; [| lrs0] | apply lrs_if ]).
 
-Lemma become_leader_fold_resp : forall now l n x v,
-  aget x (last_resp (fold_left (fun n x => n <| next_idx := aset x (last_idx (log n) + 1) (next_idx n) |>
-                                             <| match_idx := aset x 0 (match_idx n) |>
-                                             <| last_resp := aset x now (last_resp n) |>) l n)) = Some v ->
-  v = now \/ aget x (last_resp n) = Some v.
+Lemma become_leader_fold_resp : forall (g : node -> N -> node) now,
+  (forall n x, last_resp (g n x) = aset x now (last_resp n)) ->
+  forall l n x v, aget x (last_resp (fold_left g l n)) = Some v -> v = now \/ aget x (last_resp n) = Some v.
 Proof.
-  intros now l; induction l as [|a l IH]; intros n x v H; cbn in H; [right; exact H|].
-  destruct (IH _ _ _ H) as [H1 | H1]; [left; exact H1|]. cbn in H1.
+  intros g now Hg l; induction l as [|a l IH]; intros n x v H; cbn in H; [right; exact H|].
+  destruct (IH _ _ _ H) as [H1 | H1]; [left; exact H1|]. rewrite Hg in H1.
   destruct (N.eq_dec x a) as [->|Hne].
   - rewrite aget_aset_same in H1. inversion H1; left; reflexivity.
   - rewrite aget_aset_other in H1; auto.
@@ -205,7 +203,7 @@ Proof.
     destruct (role (nd s) =? LEADER) eqn:E; [apply N.eqb_eq in E; contradiction|]. cbn.
     split; [reflexivity|]. split; [lia|].
     intros x v H. right. split; [right; exists (role (nd s)); left; reflexivity|].
-    apply become_leader_fold_resp in H. cbn in H. destruct H as [-> | H]; [lia | discriminate]. }
+    eapply become_leader_fold_resp in H; [|intros; reflexivity]. cbn in H. destruct H as [-> | H]; [lia | discriminate]. }
   unfold andthen.
   match goal with |- lrs s (if ok ?Y then _ else _) => assert (lrs s Y) as H1 end.
   { destruct (use_batch (cf e)); [exact H0|].
